@@ -73,15 +73,14 @@ func PackTable(table [][]int) ( /*T*/ []int /*D*/, []int /*Check*/, []int) {
 		}
 	}
 	//Trim the zero element at the begin
-	for i := 0; i < len(ret); i++ {
-		if ret[i] != 0 {
-			break
-		}
-		ret = ret[1:]
-		check = check[1:]
-		for j := 0; j < len(row); j++ {
-			row[j]--
-		}
+	lead := 0
+	for lead < len(ret) && ret[lead] == 0 {
+		lead++
+	}
+	ret = ret[lead:]
+	check = check[lead:]
+	for j := 0; j < len(row); j++ {
+		row[j] -= lead
 	}
 	return ret, row, check
 }
